@@ -8,25 +8,24 @@ use crate::chunker::rabin::verif_harness::FragReader;
 //@ prop: C06
 //@ tier: quick
 //@ timeout: 900
-//@ mem: 10
+//@ mem: 12
+//@ fsarray: 256
 //@ kernel: chunker::fixed_size::ChunkIter::{new,next}
-//@ bound: chunk size symbolic 2..=4; stream length symbolic 0..=6, all bytes symbolic; symbolic read fragmentation; size_hint 0; four calls of next() (at most 3 chunks + end); unwind 12
+//@ bound: chunk size 3; stream length symbolic 0..=6, all bytes symbolic; read fragmentation: up to 2 short reads of symbolic length at symbolic points, other reads full; size_hint usize::MAX (the archiver passes the file size; capacity is then the chunk size); four calls of next() (at most 3 chunks + end); unwind 9
 //@ oracle: lossless, every chunk but the last has exactly `size` bytes, last is 1..=size bytes, no empty chunk, iteration ends exactly at end of stream
+//@ stub: std::io::Read::read_to_end -> contract model (reads via the same Read::read until EOF, appends once); std's implementation is out of CBMC's reach
 //@ assume: chunk size >= 1 (size 0 is refused at configuration time: c18_config_accepted_is_usable)
 #[kani::proof]
-#[kani::unwind(12)]
+#[kani::unwind(9)]
 #[kani::stub(std::backtrace::Backtrace::capture, crate::error::verif_harness::stub_backtrace_capture)]
-#[kani::stub(crate::error::RusticError::new, crate::error::verif_harness::stub_rustic_new)]
-#[kani::stub(crate::error::RusticError::attach_context, crate::error::verif_harness::stub_attach_context)]
-#[kani::stub(crate::error::RusticError::attach_source, crate::error::verif_harness::stub_attach_source)]
+#[kani::stub(std::io::Read::read_to_end, crate::chunker::rabin::verif_harness::ReadToEndModel::read_to_end)]
 pub(crate) fn c06_fixed_size_partition() {
     const N: usize = 6;
-    let size: usize = kani::any();
-    kani::assume(size >= 2 && size <= 4);
+    let size: usize = 3;
     let data: [u8; N] = kani::any();
     let len: usize = kani::any();
     kani::assume(len <= N);
-    let mut it = ChunkIter::new(size, FragReader::<N, false> { data, len, pos: 0, intr: 0 }, 0);
+    let mut it = ChunkIter::new(size, FragReader::<N, false> { data, len, pos: 0, intr: 0, short: 2 }, usize::MAX);
     let mut start = 0usize;
     let mut n = 0usize;
     let mut done = false;
@@ -52,7 +51,7 @@ pub(crate) fn c06_fixed_size_partition() {
     }
     assert!(done);
     assert!(start == len);
-    kani::cover!(n == 3, "three chunks");
+    kani::cover!(n == 2, "two full chunks");
     kani::cover!(len == 0, "empty stream");
     std::mem::forget(it);
 }
